@@ -12,7 +12,8 @@ from . import common as C
 from . import conn as CONN
 
 THEOREMS = ["ShipVerif.Panic.all_sites_justified", "ShipVerif.Panic.once_bodies_reentry_free", "ShipVerif.Panic.C08_guarded_sites_safe",
-            "ShipVerif.Panic.below_sound", "ShipVerif.Panic.atMost_sound"]
+            "ShipVerif.Panic.below_sound", "ShipVerif.Panic.atMost_sound",
+            "ShipVerif.LockOrder.lockOrder_ranked", "ShipVerif.LockOrder.C08_no_lock_cycle", "ShipVerif.LockOrder.no_deadlock"]
 
 
 def unjustified():
@@ -27,17 +28,30 @@ def unjustified():
     return (p.stdout or "")[-3000:]
 
 
+def lock_cycle():
+    """nodes the extractor could not rank: they lie on a cycle of the (held, wanted) relation - a possible wedge"""
+    try:
+        t = open(os.path.join(C.LEAN, "ShipVerif", "Generated", "OrderFacts.lean")).read()
+        m = re.search(r"def lockCycle : List String := \[(.*)\]", t)
+        nodes = re.findall(r'"([^"]*)"', m.group(1)) if m else []
+        edges = [e for e in re.findall(r'\("([^"]*)", "([^"]*)", "([^"]*)"\)', t) if e[0] in nodes and e[1] in nodes]
+        return {"nodes": nodes, "edges_among_them (held, wanted, function)": edges}
+    except OSError:
+        return {}
+
+
 def check(pid, tier, seed):
     R = C.Result(pid, tier, seed)
     R.assumptions = [
+        "lock order: the (held, wanted) pairs are computed per package with may-hold sets (sync.Once, channel closes and channel receives included as resources); calls through interfaces into other packages are not followed",
         "the inventory lists explicit partial operations (index, slice, *p, field access through a pointer-typed field or element, x.(T), integer / and %, channel send and close, writes to maps held in fields, panic calls); nil receivers, nil locals and panics inside dependencies (gorilla/websocket, encoding/json, go-avahi, zeroconf) are covered by the engines only",
         "waived sites rest on the named theorem or source fact (Model/Panic.lean `waivers`), not on a dominating condition",
         "a handler that does not return within 5 s counts as wedged",
     ]
     changed, err = C.regen_facts(sites=True)
-    p = C.lake_build(["ShipVerif.Props.C08", "ShipVerif.Props.ConnProps", "shipdrv"])
+    p = C.lake_build(["ShipVerif.Props.C08", "ShipVerif.Props.C08Order", "ShipVerif.Props.ConnProps", "shipdrv"])
     lean_ok = p.returncode == 0 and not err
-    aud = C.audit(pid, THEOREMS, ["ShipVerif.Props.C08"]) if lean_ok else []
+    aud = C.audit(pid, THEOREMS, ["ShipVerif.Props.C08", "ShipVerif.Props.C08Order"]) if lean_ok else []
     forb = C.grep_forbidden()
     discharged = sum(1 for a in aud if a["ok"]) if lean_ok and not forb else 0
     hb = C.build_harness()
@@ -131,7 +145,7 @@ def check(pid, tier, seed):
         R.violation({"property": pid, "kind": "peer-controlled input crashes or wedges the real code", "count": len(found), "first": found[0], "others": [f["why"][:200] for f in found[1:10]]}, "input")
     elif not lean_ok:
         R.violation({"property": pid, "broken": "lake build ShipVerif.Props.C08: the inventory of partial operations regenerated from /repo is no longer justified (or the facts extractor failed); the engines found no failing input",
-                     "unjustified_sites_and_once_bodies": unjustified() if not err else "", "facts_changed": changed, "detail": ((p.stdout or "") + (err or ""))[-2500:]}, "proof", no_input=True)
+                     "unjustified_sites_and_once_bodies": unjustified() if not err else "", "lock_order_cycle": lock_cycle(), "facts_changed": changed, "detail": ((p.stdout or "") + (err or ""))[-2500:]}, "proof", no_input=True)
     elif diverge:
         v = min(diverge, key=lambda x: len(x["history"]))
         R.violation({"property": pid, "broken": "correspondence stepC (Lean) vs ship.ShipConnection under malformed input; no crash and no wedge on any input explored",
